@@ -3,6 +3,7 @@ import concurrent.futures as cf, json, os, re, subprocess, time
 from lib import vlib
 from lib.vlib import GOENV
 from gen import c14_api, c14_drivers as D, c14_scenarios as SC
+from extract import c14_tables
 
 PROP = "C14"
 META = {
@@ -64,16 +65,27 @@ class Program:
         self.wa_time = 0.0
 
 
-def run_program(ctx, harness, prog, deadline):
-    """runs prog both ways; fills prog.go / prog.wa / prog.events"""
-    src, _ = D.render_program(prog.secs)
+def run_go_all(ctx, progs):
+    """the reference side: ALL sections of all programs in one Go program (one compile + link instead of one per package)"""
+    allsecs, owner = [], []
+    for p in progs:
+        for k, s in enumerate(p.secs):
+            allsecs.append(s)
+            owner.append((p, k))
+    src, _ = D.render_program(allsecs)
     t0 = time.time()
-    rc, glines = run_go(ctx, src, prog.name + ".go")
+    rc, glines = run_go(ctx, src, "all.go")
     gres, _, _, gdone, _ = D.parse_output(glines)
     if rc != 0 or not gdone:
-        raise vlib.InfraError("go run of driver %s failed (generator bug: an argument makes Go panic?):\n%s" % (prog.name, "\n".join(glines)[-3000:]))
-    prog.go = gres
-    prog.go_time = time.time() - t0
+        raise vlib.InfraError("go run of the drivers failed (generator bug: an argument makes Go panic?):\n%s" % ("\n".join(l for l in glines if not l.startswith("S"))[-3000:]))
+    for (gid, idx), toks in gres.items():
+        p, k = owner[gid]
+        p.go[(k, idx)] = toks
+    return time.time() - t0
+
+
+def run_program(ctx, harness, prog, deadline):
+    """runs prog under Wa; fills prog.wa / prog.events"""
     # Wa: iterate over compile errors (drop the section) and traps / hangs (skip the call, continue after it)
     alive = list(range(len(prog.secs)))          # section indices still to run
     skip = {}                                    # section index -> set of call indices to leave out
@@ -284,6 +296,35 @@ def custom_class(sec, args, go, wa):
     return None
 
 
+def enc_arg(v):
+    if isinstance(v, bytes):
+        return "x:" + v.hex()
+    if isinstance(v, (list, tuple)):
+        return [enc_arg(x) for x in v]
+    return v
+
+
+def dec_arg(v):
+    if isinstance(v, str) and v.startswith("x:"):
+        return bytes.fromhex(v[2:])
+    if isinstance(v, list):
+        return [dec_arg(x) for x in v]
+    return v
+
+
+def load_corpus():
+    """corpus/C14/*.json: [{"function": <section key>, "args": [encoded args]}] — minimised past divergences and
+    boundary cases that must be exercised whatever the seed; prepended to the section's argument table"""
+    out = {}
+    d = os.path.join(vlib.VERIF, "corpus", PROP)
+    if os.path.isdir(d):
+        for f in sorted(os.listdir(d)):
+            if f.endswith(".json"):
+                for e in json.load(open(os.path.join(d, f))):
+                    out.setdefault(e["function"], []).append(tuple(dec_arg(a) for a in e["args"]))
+    return out
+
+
 def show_args(sec, args):
     out = []
     for kind, v in zip(sec.kinds, args):
@@ -314,6 +355,194 @@ def show_toks(sec, toks):
     return " ".join(out)
 
 
+# ------------------------------------------------------------------------------------------ tie to the Lean models
+
+def hx(b):
+    return b.hex() if b else "-"
+
+
+def _dec_result(toks):
+    return "%s nil" % toks[0] if toks[-1] == "nil" else "err"
+
+
+def _parse_result(toks):
+    if toks[1] == "nil":
+        return "%s nil" % toks[0]
+    sl = err_slug(toks[1])
+    if sl == "value-out-of-range":
+        return "%s range" % toks[0]
+    return {"invalid-syntax": "0 syntax"}.get(sl, "0 base" if sl.startswith("invalid-base") else "0 bits" if sl.startswith("invalid-bit-size") else "0 ?" + sl)
+
+
+def _intlist(tok):
+    body = tok[2:]
+    return " ".join(body.split(",")) if body else ""
+
+
+def model_tie(sec, args):
+    """-> (op line for wamodel_c14, function from a token list to the line the model must print) or None"""
+    k = sec.key
+    A = args
+    m = re.fullmatch(r"base64\.(Std|URL|RawStd|RawURL)\.(EncodeToString|DecodeString|EncodedLen|DecodedLen)", k)
+    if m:
+        e, f = m.groups()
+        if f == "EncodeToString":
+            return "b64.enc %s %s" % (e, hx(A[0])), lambda t: t[0]
+        if f == "DecodeString":
+            return "b64.dec %s %s" % (e, hx(A[0])), _dec_result
+        if A[0] >= 1 << 27:
+            return None
+        return "b64.%s %s %d" % ("enclen" if f == "EncodedLen" else "declen", e, A[0]), lambda t: t[0]
+    m = re.fullmatch(r"base32\.(Std|Hex)\.(EncodeToString|DecodeString|EncodedLen|DecodedLen)", k)
+    if m:
+        e, f = m.groups()
+        if f == "EncodeToString":
+            return "b32.enc %s %s" % (e, hx(A[0])), lambda t: t[0]
+        if f == "DecodeString":
+            return "b32.dec %s %s" % (e, hx(A[0])), _dec_result
+        if A[0] >= 1 << 27:
+            return None
+        return "b32.%s %d" % ("enclen" if f == "EncodedLen" else "declen", A[0]), lambda t: t[0]
+    if k == "encoding/hex.EncodeToString":
+        return "hex.enc " + hx(A[0]), lambda t: t[0]
+    if k == "encoding/hex.DecodeString":
+        return "hex.dec " + hx(A[0]), _dec_result
+    if k in ("encoding/hex.EncodedLen", "encoding/hex.DecodedLen"):
+        return "hex.%s %d" % ("enclen" if "Enc" in k else "declen", A[0]), lambda t: t[0]
+    if k == "hash/crc32.ChecksumIEEE":
+        return "crc.ieee " + hx(A[0]), lambda t: t[0]
+    if k == "crc32.Checksum":
+        return "crc.update 0 %d %s" % (A[1], hx(A[0])), lambda t: t[0]
+    if k == "crc32.Update":
+        return "crc.update %d %d %s" % (A[0], A[1], hx(A[2])), lambda t: t[0]
+    if k == "crc32.MakeTable":
+        return "crc.tab %d %d" % (A[0], A[1]), lambda t: t[0]
+    if k == "crc32.NewIEEE.Write":
+        return "crc.ieee " + hx(A[0] + A[1]), lambda t: t[2]
+    if k == "crc32.New.Write":
+        return "crc.update 0 %d %s" % (A[0], hx(A[1] + A[2])), lambda t: t[2]
+    if k == "hash/adler32.Checksum":
+        return "adler " + hx(A[0]), lambda t: t[0]
+    if k == "adler32.New.Write":
+        return "adler " + hx(A[0] + A[1]), lambda t: t[2]
+    if k == "md5.New.Write":
+        return "md5 " + hx(A[0] + A[1]), lambda t: t[2]
+    m = re.fullmatch(r"fnv\.New(32|32a|64|64a)\.Write", k)
+    if m:
+        return "fnv%s %s" % (m.group(1), hx(A[0] + A[1])), lambda t: t[2]
+    if k in ("strconv.FormatInt", "strconv.FormatUint"):
+        return "conv.%s %d %d" % ("fmti" if k.endswith("Int") and not k.endswith("Uint") else "fmtu", A[0], A[1]), lambda t: t[0]
+    if k in ("strconv.ParseInt", "strconv.ParseUint"):
+        if A[2] == 0:
+            return None
+        return "conv.%s %s %d %d" % ("parsei" if k.endswith("ParseInt") else "parseu", hx(A[0]), A[1], A[2]), _parse_result
+    if k == "utf8.EncodeRune":
+        return "utf8.enc %d" % A[0], lambda t: t[1]
+    if k == "unicode/utf8.RuneLen":
+        return "utf8.len %d" % A[0], lambda t: t[0]
+    if k == "unicode/utf8.ValidRune":
+        return "utf8.validrune %d" % A[0], lambda t: t[0]
+    if k in ("unicode/utf8.DecodeRune", "unicode/utf8.DecodeRuneInString"):
+        return "utf8.dec " + hx(A[0]), lambda t: "%s %s" % (t[0], t[1])
+    if k in ("unicode/utf8.DecodeLastRune", "unicode/utf8.DecodeLastRuneInString"):
+        return "utf8.declast " + hx(A[0]), lambda t: "%s %s" % (t[0], t[1])
+    if k in ("unicode/utf8.Valid", "unicode/utf8.ValidString"):
+        return "utf8.valid " + hx(A[0]), lambda t: t[0]
+    if k in ("unicode/utf8.RuneCount", "unicode/utf8.RuneCountInString"):
+        return "utf8.count " + hx(A[0]), lambda t: t[0]
+    if k in ("unicode/utf8.FullRune", "unicode/utf8.FullRuneInString"):
+        return "utf8.full " + hx(A[0]), lambda t: t[0]
+    m = re.fullmatch(r"math/bits\.((OnesCount|Len|LeadingZeros|TrailingZeros|Reverse|ReverseBytes|RotateLeft|Add|Sub|Mul)(8|16|32|64)|Div64|Rem64)", k)
+    if m:
+        name = m.group(1)
+        if name in ("ReverseBytes8", "Add8", "Add16", "Sub8", "Sub16", "Mul8", "Mul16"):
+            return None
+        return "bits.%s %s" % (name, " ".join(str(a) for a in A)), lambda t: " ".join(t)
+    if k == "sort.Ints":
+        return "sort.ints " + " ".join(str(v) for v in A[0]), lambda t: _intlist(t[0])
+    if k == "sort.Strings":
+        return "sort.strs " + " ".join(hx(v) for v in A[0]), lambda t: " ".join(t[0][2:].split(",")) if t[0][2:] else ""
+    return None
+
+
+PROOF_MODULES = [
+    ("WaVerif.Props.C14Hex", ["hex_decode_encode", "hex_encode_length", "hex_decode_sound", "hex_reverse_inverts_table"], False),
+    ("WaVerif.Props.C14B64", ["b64_decode_encode", "b64_encode_length", "alphabets_ok"], False),
+    ("WaVerif.Props.C14B32", ["b32_decode_encode", "b32_encode_length", "alphabets32_ok"], False),
+    ("WaVerif.Props.C14Utf8", ["utf8_decode_encode", "utf8_decode_eq_spec", "utf8_table_matches_standard", "utf8_encode_length"], False),
+    ("WaVerif.Props.C14Hash", ["crc_table_ieee_correct", "crc_update_ieee_eq_bitwise", "crc_update_append", "adler_checksum_eq_spec", "fnv32_append"], False),
+    ("WaVerif.Props.C14Conv", ["parseUint_formatUint", "parseInt_formatInt", "digit_roundtrip"], False),
+    ("WaVerif.Props.C14Sort", ["sortInts_spec", "sortStrings_spec", "sorted_perm_unique"], False),
+    ("WaVerif.Props.C14Bits", ["onesCount64_eq", "onesCount32_eq", "pop8tab_correct"], True),
+    ("WaVerif.Props.C14Bits2", ["reverse64_eq", "reverseBytes64_eq", "rotateLeft_eq", "add64_carry", "sub64_borrow"], True),
+    ("WaVerif.Props.C14Bits3", ["len64_eq", "leadingZeros64_eq", "trailingZeros64_eq", "mul64_eq", "deBruijn64_table"], True),
+    ("WaVerif.Props.C14", ["c14_codecs_round_trip", "c14_integers_round_trip"], False),
+]
+BV_AX = [r".*\._native\.bv_decide\.ax_.*", r"Lean\.ofReduceBool", r"Lean\.trustCompiler"]
+
+
+def prove_modules(ctx, modules):
+    """What ctx.prove does, for all C14 proof modules with ONE `lake build` and ONE audit run (the lake lock is shared
+    with every other builder, so each separate invocation can wait for minutes), and with an audit parser that accepts
+    axiom lists wrapped over several lines (long `bv_decide` axiom names make Lean's formatter break the line, which
+    lib/vlib.py's single-line regex does not match).  Returns the path of the model executable or None."""
+    names = [m for m, _, _ in modules]
+    for m in names:
+        bad = vlib.scan_forbidden(vlib.LEAN, m)
+        if bad:
+            ctx.proof["broken"].append({"theorem": "*", "why": "forbidden construct: %s" % bad[:3]})
+    ok, log = ctx.lake_build(names + ["wamodel_c14"])
+    if not ok:
+        failing = sorted(set(re.findall(r"error: .*?([\w/]+\.lean):(\d+)", log)))
+        nthm = 0
+        for m in names:
+            src = os.path.join(vlib.LEAN, m.replace(".", "/") + ".lean")
+            nthm += len(re.findall(r"^\s*theorem\s+([^\s:({\[]+)", open(src).read(), re.M))
+        ctx.proof["obligations"] += max(nthm, 1)
+        ctx.proof["broken"].append({"theorem": "WaVerif.Props.C14*", "why": "lake build failed", "where": ["%s:%s" % f for f in failing][:10], "log": log[-3000:]})
+        return None
+    audit_dir = os.path.join(vlib.LEAN, ".audit")
+    os.makedirs(audit_dir, exist_ok=True)
+    af = os.path.join(audit_dir, "WaVerif_Props_C14_all.lean")
+    with open(af, "w") as f:
+        f.write("import WaVerif.Base.AuditCmd\n" + "".join("import %s\n" % m for m in names) + "".join("#audit_module %s\n" % m for m in names))
+    with vlib.Lock("lake"):
+        rc, o = vlib.sh(["lake", "env", "lean", af], cwd=vlib.LEAN, timeout=1800)
+    found = {}
+    for m in re.finditer(r"AUDIT (\S+) axioms=\[(.*?)\]", o, re.S):
+        found[m.group(1)] = [a.strip() for a in m.group(2).replace("\n", " ").split(",") if a.strip()]
+    if rc != 0 or not found:
+        ctx.proof["obligations"] += 1
+        ctx.proof["broken"].append({"theorem": "WaVerif.Props.C14*", "why": "audit failed", "log": o[-2000:]})
+        return None
+    allow = {}
+    for m, req, bv in modules:
+        for r in req:
+            if not any(n == r or n.endswith("." + r) for n in found):
+                ctx.proof["obligations"] += 1
+                ctx.proof["broken"].append({"theorem": r, "why": "required theorem missing (%s)" % m})
+    for n, axs in sorted(found.items()):
+        if re.search(r"\.eq_\d+$|\.match_\d+|\.proof_\d+", n):
+            continue                                  # equation lemmas of definitions, not obligations
+        ctx.proof["obligations"] += 1
+        extra = [a for a in axs if a not in vlib.STD_AXIOMS and not any(re.fullmatch(pat, a) for pat in BV_AX)]
+        bvax = [a for a in axs if a not in vlib.STD_AXIOMS]
+        if extra:
+            ctx.proof["broken"].append({"theorem": n, "why": "axioms outside allow-list: %s" % extra})
+        else:
+            ctx.proof["discharged"] += 1
+        ctx.proof["theorems"][n] = axs
+    if ctx.tier == "thorough":
+        for m in names:
+            with vlib.Lock("lake"):
+                rc, o = vlib.sh(["lake", "env", "leanchecker", m], cwd=vlib.LEAN, timeout=3000)
+            ctx.notes.append("leanchecker %s rc=%d" % (m, rc))
+            if rc != 0:
+                ctx.proof["broken"].append({"theorem": m, "why": "leanchecker rejected", "log": o[-2000:]})
+    exe = os.path.join(vlib.LEAN, ".lake", "build", "bin", "wamodel_c14")
+    return exe if os.path.exists(exe) else None
+
+
 # ------------------------------------------------------------------------------------------ the check
 
 def build_sections(ctx, vol):
@@ -338,47 +567,104 @@ def build_sections(ctx, vol):
         else:
             api_notes["excluded"][key] = D.EXCLUDE.get(key) or "unsupported-signature"
     scen = SC.all_scenarios(ctx.rng, vol)
+    corpus = load_corpus()
+    used = 0
+    for s in secs + scen:
+        extra = [a for a in corpus.get(s.key, []) if len(a) == len(s.kinds)]
+        if extra:
+            s.calls = extra + [c for c in s.calls if c not in extra]
+            used += len(extra)
+    api_notes["corpus_calls"] = used
     return secs + scen, api_notes, sigdiff, both
 
 
-def make_programs(secs):
+def make_programs(secs, known=()):
     only = os.environ.get("C14_ONLY")
     bypkg = {}
+
+    def disruptive(s):
+        """sections already known not to compile or to stop the program get a small program of their own, so that the
+        reruns they cause do not repeat the rest of the package"""
+        for k in known:
+            rx = k.get("key_regex")
+            if not rx:
+                continue
+            for probe in ["%s:does-not-compile" % s.key] + ["%s:%s:%s" % (s.key, ev, c) for ev in ("traps", "hangs") for c in ("ascii", "non-ascii", "invalid-utf8")]:
+                if re.fullmatch(rx, probe):
+                    return True
+        return False
+
     for s in secs:
         if only and not any(o in s.key or o == s.pkg for o in only.split(",")):
             continue
-        bypkg.setdefault(s.pkg, []).append(s)
+        bypkg.setdefault(s.pkg + ("#isolated" if disruptive(s) else ""), []).append(s)
     progs = []
     for pkg in sorted(bypkg):
         cur, size, n = [], 0, 0
         for s in bypkg[pkg]:
             est = len(s.render(0)) + len(s.pre)
             if cur and size + est > MAX_SRC:
-                progs.append(Program("%s_%d" % (pkg.replace("/", "_"), n), cur))
+                progs.append(Program("%s_%d" % (pkg.replace("/", "_").replace("#", "_"), n), cur))
                 cur, size, n = [], 0, n + 1
             cur.append(s)
             size += est
         if cur:
-            progs.append(Program("%s_%d" % (pkg.replace("/", "_"), n), cur))
+            progs.append(Program("%s_%d" % (pkg.replace("/", "_").replace("#", "_"), n), cur))
     return progs
+
+
+def replay(ctx, harness, secs, vol):
+    """./check C14 --replay replays/C14/<file>.json : re-runs exactly the recorded call under Wa and under Go"""
+    r = json.load(open(ctx.replay))["replay"]
+    sec = next((s for s in secs if s.key == r.get("function")), None)
+    if sec is None or "args_json" not in r:
+        print("replay: nothing executable in %s (section-level finding: %s)" % (ctx.replay, r.get("event") or r.get("function")))
+        return ctx.finish("exploration", {"evaluations": 0, "distinct_nontrivial": 0, "rule": "replay", "samples": [], "distribution": {}})
+    sec.calls = [tuple(dec_arg(a) for a in r["args_json"])]
+    prog = Program("replay", [sec])
+    run_go_all(ctx, [prog])
+    run_program(ctx, harness, prog, vol["deadline"])
+    go, wa = prog.go.get((0, 0)), prog.wa.get((0, 0))
+    print("replay %s%s" % (sec.key, show_args(sec, sec.calls[0])))
+    print("  go: %s" % show_toks(sec, go))
+    print("  wa: %s   %s" % (show_toks(sec, wa), "; ".join("%s: %s" % (e[0], e[3][:200]) for e in prog.events)))
+    t = model_tie(sec, sec.calls[0])
+    if t:
+        print("  model op: %s" % t[0][:300])
+    if go != wa:
+        ctx.violation("replay:" + r.get("function", "?"), "replayed call still differs: %s%s" % (sec.key, show_args(sec, sec.calls[0])), r)
+    return ctx.finish("exploration", {"evaluations": 1, "distinct_nontrivial": 1, "rule": "replay of one recorded call", "samples": [], "distribution": {}})
 
 
 def run(ctx):
     vol = VOLUME[ctx.tier]
     dev = bool(os.environ.get("C14_DEV"))
     harness = ctx.build_harness("c14")
+    # 1. regenerate the table module from the .wa sources (+ the CRC tables computed by the port), then the proofs
+    try:
+        c14_tables.regenerate(vlib.REPO, harness, ctx.tmp, vlib.LEAN)
+    except c14_tables.TableError as e:
+        ctx.proof["broken"].append({"theorem": "Gen/C14Tables.lean regeneration", "why": str(e)})
+    t0 = time.time()
+    model = prove_modules(ctx, PROOF_MODULES)
+    ctx.notes.append("proofs + model build: %.0fs" % (time.time() - t0))
     secs, api_notes, sigdiff, both = build_sections(ctx, vol)
+    if ctx.replay:
+        return replay(ctx, harness, secs, vol)
     for pkg, name, g, w in sigdiff:
         api_notes["signature_differs"].append("%s.%s" % (pkg, name))
         ctx.violation("%s.%s:signature-differs" % (pkg.split("/")[-1], name),
                       "%s.%s has a different signature in the Wa port: Go %s -> %s, Wa %s -> %s" % (pkg, name, g["params"], g["results"], w["params"], w["results"]),
                       {"package": pkg, "function": name, "go": g, "wa": {k: w[k] for k in ("params", "results", "file", "line")}})
-    progs = make_programs(secs)
+    progs = make_programs(secs, ctx.known)
     progs.sort(key=lambda p: -sum(len(s.render(0)) for s in p.secs))
     t0 = time.time()
     with cf.ThreadPoolExecutor(int(os.environ.get("C14_JOBS", "14"))) as ex:
+        gofut = ex.submit(run_go_all, ctx, progs)
         list(ex.map(lambda p: run_program(ctx, harness, p, vol["deadline"]), progs))
-    ctx.notes.append("drivers: %d programs, %.0fs" % (len(progs), time.time() - t0))
+        ctx.notes.append("go side (one program): %.0fs" % gofut.result())
+    ctx.notes.append("drivers: %d programs, %.0fs; slowest: %s" % (len(progs), time.time() - t0, ", ".join(
+        "%s go=%.0fs wa=%.0fs" % (p.name, getattr(p, "go_time", 0), p.wa_time) for p in sorted(progs, key=lambda p: -(p.wa_time + getattr(p, "go_time", 0)))[:6])))
 
     dist = {"functions": 0, "calls": 0, "agree": 0, "diverge": 0, "by_package": {}, "arg_classes": {}, "events": {}}
     nontrivial = set()
@@ -436,7 +722,55 @@ def run(ctx):
                 cc = custom_class(s, args, go, wa)
                 key = "%s:%s" % (s.key, cc) if cc else "%s:%s:%s" % (s.key, oc, ac)
                 keys.setdefault(key, []).append(what)
-                ctx.violation(key, what, {"function": s.key, "args": show_args(s, args), "go": go, "wa": wa, "driver_statements": s.stmts})
+                ctx.violation(key, what, {"function": s.key, "args": show_args(s, args), "args_json": [enc_arg(a) for a in args], "go": go, "wa": wa,
+                                          "driver_statements": s.stmts})
+    # 3. tie: the compiled Lean models run on the same arguments; they must print what the Wa port printed (and what
+    #    Go printed where the port is already known to differ)
+    tie_ops, tie_exp, tie_fn = [], [], {}
+    for p in progs:
+        for k, s in enumerate(p.secs):
+            for idx, args in enumerate(s.calls if s.kinds else s.calls[:1]):
+                go, wa = p.go.get((k, idx)), p.wa.get((k, idx))
+                if go is None:
+                    continue
+                try:
+                    t = model_tie(s, args)
+                except Exception:
+                    t = None
+                if not t:
+                    continue
+                op, canon = t
+                if len(op) > 60000:
+                    continue
+                try:
+                    g = canon(go)
+                    w = canon(wa) if wa is not None and len(wa) == len(go) else None
+                except Exception:
+                    continue
+                tie_ops.append(op)
+                tie_exp.append((w, g, s.key))
+                tie_fn[s.key] = tie_fn.get(s.key, 0) + 1
+    dist["model_lines"] = len(tie_ops)
+    dist["model_functions"] = len(tie_fn)
+    dist["model_vs_wa_differs_where_wa_differs_from_go"] = 0
+    if model and tie_ops:
+        _, mo, _ = ctx.run_bin(model, input_text="\n".join(tie_ops) + "\n", timeout=3000)
+        mlines = mo.splitlines()
+        ctx.corr["lines"] += len(tie_ops)
+        if len(mlines) != len(tie_ops):
+            ctx.proof["broken"].append({"theorem": "correspondence C14 (wamodel_c14)", "why": "model printed %d lines for %d ops" % (len(mlines), len(tie_ops))})
+        nbad = 0
+        for op, (w, g, key), mline in zip(tie_ops, tie_exp, mlines):
+            if mline == w:
+                continue
+            if w != g and mline == g:
+                dist["model_vs_wa_differs_where_wa_differs_from_go"] += 1        # the port deviates (reported above); the model follows Go
+                continue
+            ctx.corr["diffs"] += 1
+            nbad += 1
+            if nbad <= 12:
+                ctx.proof["broken"].append({"theorem": "correspondence C14 model vs port: " + key,
+                                            "why": "op %r: model=%r wa=%r go=%r" % (op[:300], mline[:200], (w or "")[:200], g[:200])})
     if dev:
         for key in sorted(keys):
             print("KEY %-70s n=%d  e.g. %s" % (key, len(keys[key]), keys[key][0][:400]))
